@@ -994,6 +994,33 @@ func (ex *Exec) applyContract(st *State, cfi *FuncInfo, cfc *FuncContract, recv 
 		}
 		ex.assume(st, t)
 	}
+	if cfc.PureAs != "" && len(rvals) == 1 {
+		// determinism: the result is a mathematical function of receiver and arguments
+		sf := ex.w.findSpec(calleePkg, cfc.PureAs)
+		if sf == nil || sf.Body != nil {
+			panic("pureas: " + cfc.PureAs + " must be a spec function without body")
+		}
+		var ts []*Term
+		if recv != nil {
+			ts = append(ts, recv.T)
+		}
+		for _, a := range args {
+			if a.Fn == nil && a.FnObj == nil {
+				ts = append(ts, a.T)
+			}
+		}
+		if len(ts) != len(sf.Params) {
+			panic("pureas: arity mismatch for " + cfc.PureAs)
+		}
+		for i := range ts {
+			ps, _ := ex.w.resolveSpecType(sf.Pkg, sf.Params[i].Type)
+			if ts[i].S.Kind == KInt && ps.Kind == KReal {
+				ts[i] = toReal(ts[i])
+			}
+		}
+		rs, _ := ex.w.resolveSpecType(sf.Pkg, sf.Ret)
+		ex.assume(st, tEq(rvals[0].T, mk(specFuncSMTName(sf), rs, ts...)))
+	}
 	if len(rvals) == 0 {
 		return tv(intLit(0), nil)
 	}
